@@ -79,6 +79,22 @@ func Vequals(x1, x2 Vector) bool {
   return true
 }
 
+// A step is below the resolution of the floating point numbers if no
+// component of x changes by more than a few units in the last place
+// (or stays in the subnormal range). Iterating further cannot make
+// progress, but the iterates might still creep or alternate between
+// neighboring numbers forever.
+func stalled(x1, x2 Vector) bool {
+  for i := 0; i < x1.Dim(); i++ {
+    a := x1.At(i).GetFloat64()
+    b := x2.At(i).GetFloat64()
+    if math.Abs(a - b) > 4.0*2.220446e-16*math.Max(math.Abs(a), math.Abs(b)) + 2.225074e-308 {
+      return false
+    }
+  }
+  return true
+}
+
 func getDirection(r, g Vector, H Matrix, hessianModification HessianModification, inSitu *InSitu) error {
   switch hessianModification.Value {
   case "Eigenvalue":
@@ -193,7 +209,7 @@ func newton_root(f objective_root, x ConstVector,
     // satisfy the constraints
     for {
       x2.VsubV(x1, t1)
-      if Vequals(x1, x2) {
+      if stalled(x1, x2) {
         return x1, fmt.Errorf("line search failed")
       }
       // check constraints
@@ -306,11 +322,15 @@ func newton_min(
         if constraints.Value != nil && !constraints.Value(x2) {
           return x1, fmt.Errorf("line search failed")
         }
+        // stop if the step is too small to make any progress
+        if stalled(x1, x2) {
+          return x1, fmt.Errorf("line search failed")
+        }
       }
     } else {
       for {
         x2.VsubV(x1, t1)
-        if Vequals(x1, x2) {
+        if stalled(x1, x2) {
           return x1, fmt.Errorf("line search failed")
         }
         // check constraints
